@@ -74,7 +74,7 @@ theorem areIntervalsEqual_iff_canon (o o' : Option (List Interval)) :
         exact ⟨by simpa using h.length_eq, h⟩
 
 /-- canonical form of an annotation: residues, charge, and per position the multiset of keys -/
-structure Canon where
+structure EqCanon where
   seq : List Char
   labile : Option (Multiset ModKey)
   unknown : Option (Multiset ModKey)
@@ -87,17 +87,17 @@ structure Canon where
   intervals : Option (Multiset IvKey)
   charge : Option Int
 
-def canon (a : Annotation) : Canon :=
+def eqCanon (a : Annotation) : EqCanon :=
   { seq := a.seq, labile := canonMods a.labile, unknown := canonMods a.unknown, nterm := canonMods a.nterm,
     cterm := canonMods a.cterm, adducts := canonMods a.adducts, isotope := canonMods a.isotope,
     static := canonMods a.static, internal := fun k => canonMods (getInternal a k),
     intervals := canonIvs a.intervals, charge := a.charge }
 
-theorem annEq_iff_canon (a b : Annotation) : annEq a b = true ↔ canon a = canon b := by
+theorem annEq_iff_canon (a b : Annotation) : annEq a b = true ↔ eqCanon a = eqCanon b := by
   rw [annEq_iff]
   constructor
   · intro h
-    simp only [canon, Canon.mk.injEq]
+    simp only [eqCanon, EqCanon.mk.injEq]
     refine ⟨h.seq, (areModsEqual_iff_canon _ _).1 h.labile, (areModsEqual_iff_canon _ _).1 h.unknown,
       (areModsEqual_iff_canon _ _).1 h.nterm, (areModsEqual_iff_canon _ _).1 h.cterm,
       (areModsEqual_iff_canon _ _).1 h.adducts, (areModsEqual_iff_canon _ _).1 h.isotope,
@@ -105,7 +105,7 @@ theorem annEq_iff_canon (a b : Annotation) : annEq a b = true ↔ canon a = cano
     funext k
     exact (areModsEqual_iff_canon _ _).1 (h.internal k)
   · intro h
-    simp only [canon, Canon.mk.injEq] at h
+    simp only [eqCanon, EqCanon.mk.injEq] at h
     obtain ⟨h1, h2, h3, h4, h5, h6, h7, h8, h9, h10, h11⟩ := h
     exact ⟨h1, (areModsEqual_iff_canon _ _).2 h2, (areModsEqual_iff_canon _ _).2 h3, (areModsEqual_iff_canon _ _).2 h4,
       (areModsEqual_iff_canon _ _).2 h5, (areModsEqual_iff_canon _ _).2 h6, (areModsEqual_iff_canon _ _).2 h7,
